@@ -149,6 +149,40 @@ var checkC05Reused = register("C05/fields-reused", func(r reusedCase2) string {
 	return ""
 })
 
+// assignedCase2: the vector of Decoded (all three groups present) goes through the
+// environmental decoder, is optionally scored, then every field is assigned Cur's value; the
+// score must be Cur's. What Decode noted about the values it read must not matter any more.
+type assignedCase2 struct {
+	Decoded     fieldCase2 `json:"decoded_vector"`
+	ScoredFirst bool       `json:"scored_before_assignment"`
+	Cur         fieldCase2 `json:"assigned"`
+}
+
+var checkC05Assigned = register("C05/decoded-then-assigned", func(r assignedCase2) string {
+	if !inRange2(r.Decoded) || !inRange2(r.Cur) || !r.Decoded.HasT || !r.Decoded.HasE || !r.Cur.HasT || !r.Cur.HasE {
+		return ""
+	}
+	vec := gen.V2FromIdx(r.Decoded.B, true, r.Decoded.T, true, r.Decoded.E).String()
+	e, err := m2.NewEnvironmental().Decode(vec)
+	if err != nil {
+		return fmt.Sprintf("canonical vector %q rejected: %v", vec, err)
+	}
+	if r.ScoredFirst {
+		e.Score()
+		e.Severity()
+	}
+	bind.SetV2Base(e.Base, r.Cur.B)
+	bind.SetV2Temporal(e.Temporal, r.Cur.T)
+	bind.SetV2Env(e, r.Cur.E)
+	if m := c05Verdict(r.Cur, e.Score()); m != "" {
+		if _, _, known := splitKnown(m); known {
+			return m
+		}
+		return fmt.Sprintf("decoded %q, then fields assigned: %s", vec, m)
+	}
+	return ""
+})
+
 var checkC05Decode = register("C05/decode", func(c scoreCase2) string {
 	ref, ok := spec.AcceptV2(c.Input, spec.Environmental)
 	if !ok {
@@ -434,6 +468,60 @@ func TestC05(t *testing.T) {
 			}
 		}
 		c.rec.Bulk("two-field-transitions", evals, evals, map[string]int64{"two-field-transition": evals})
+	}
+
+	// ---- decoded vectors of special shape, then assignment -------------------------------------
+	// templates: every optional metric at ND except one (each metric, each value), all ND, and
+	// three ordinary ones; 24 hash-chosen complete assignments on each
+	{
+		var evals int64
+		nviol := 0
+		optM := append(append([]*spec.Metric(nil), spec.V2T()...), spec.V2E()...)
+		nd := func(m *spec.Metric) int { return m.Index("ND") }
+		var templates []fieldCase2
+		allND := fieldCase2{B: [6]int{2, 0, 2, 1, 1, 2}, HasT: true, HasE: true}
+		for i, m := range spec.V2T() {
+			allND.T[i] = nd(m)
+		}
+		for i, m := range spec.V2E() {
+			allND.E[i] = nd(m)
+		}
+		templates = append(templates, allND)
+		for oi, m := range optM {
+			for vi := range m.Codes {
+				t := allND
+				if oi < 3 {
+					t.T[oi] = vi
+				} else {
+					t.E[oi-3] = vi
+				}
+				templates = append(templates, t)
+			}
+		}
+		templates = append(templates, fieldCase2{B: [6]int{0, 1, 0, 2, 2, 2}, HasT: true, T: [3]int{1, 1, 1}, HasE: true, E: [5]int{2, 1, 0, 1, 3}}, fieldCase2{B: [6]int{2, 2, 2, 0, 1, 0}, HasT: true, T: [3]int{3, 3, 2}, HasE: true, E: [5]int{4, 3, 2, 2, 2}})
+		k := 0
+		for ti, tpl := range templates {
+			for a := 0; a < 24 && nviol == 0; a++ {
+				k++
+				if !mine(k) {
+					continue
+				}
+				h := mix(uint64(seed)+uint64(ti)*977, uint64(a))
+				cur := fieldCase2{HasT: true, HasE: true}
+				for i := range cur.B {
+					cur.B[i] = int(h >> (4 * uint(i)) % 3)
+				}
+				for i, m := range spec.V2T() {
+					cur.T[i] = int(h >> (24 + 4*uint(i)) % uint64(len(m.Codes)))
+				}
+				for i, m := range spec.V2E() {
+					cur.E[i] = int(h >> (36 + 4*uint(i)) % uint64(len(m.Codes)))
+				}
+				evals++
+				evalEnum(c, "decoded-then-assigned", assignedCase2{Decoded: tpl.withText(), ScoredFirst: a%2 == 0, Cur: cur.withText()}, checkC05Assigned, &nviol)
+			}
+		}
+		c.rec.Bulk("decoded-then-assigned", evals, evals, map[string]int64{"decoded-special-shape-then-assigned": evals})
 	}
 
 	// ---- rapid: random vectors (shrinkable) ------------------------------------------------
